@@ -27,7 +27,7 @@ import numpy as np
 from runner import TieBroken
 
 ID = "C03"
-LEAN_MODULES = ["PyYetiVerif.Props.C03", "PyYetiVerif.Audit.C03"]
+LEAN_MODULES = ["PyYetiVerif.Props.C03", "PyYetiVerif.Props.C03b", "PyYetiVerif.Audit.C03"]
 AUDIT_FILE = "PyYetiVerif/Audit/C03.lean"
 THEOREMS = [
     "PyYetiVerif.C03." + n
@@ -36,7 +36,13 @@ THEOREMS = [
         "exact_step_affine a_coeffs_are_charpoly ramp_invariant ramp_invariant_absacce "
         "ramp_invariant_reldisp pvelo_eq pacce_eq dc_gain suma_pos steady_addback_is_dc_gain "
         "lfilter_scale lfilter_add lfilter_append_take peak_abs_eq_max_pos_neg peak_total_ge "
-        "eqsine_eq column_permutation window_lengths nzeros_eq vrs_quadrature_is_trapezoid_plus_half_end_cells"
+        "eqsine_eq column_permutation window_lengths nzeros_eq vrs_quadrature_is_trapezoid_plus_half_end_cells "
+        # Props/C03b.lean
+        "steady_state_fixed steady_response_values steady_ic_exact shift_ic_exact srs_column_is_exact_response_peak "
+        "free_decay_solves_ode residual_is_free_decay srs_residual_is_free_decay_peak rigid_solves_ode ramp_invariant_rigid "
+        "rigid_response_values rolloff_triggers_iff rolloff_factor_ge_two rolloff_meets_ppc rolloff_step_triggered "
+        "rolloff_step_untouched rolloff_index_values rolloff_indices residual_starts_at_record_end vrs_grid_sorted "
+        "vrs_grid_mem vrs_weights vrs_gain_is_normSq_H vrs_is_quadrature_of_H2_psd vrs_needs_two_points srs_frf_gain_is_H"
     ).split()
 ]
 TRUSTED = [
@@ -188,9 +194,9 @@ def _srs_requests(opts, Q, sr, freqs, sig2d):
     return out
 
 
-def _call_srs(srs, sig, sr, freqs, Q, st, ic, pk, tm, es, rolloff="none"):
+def _call_srs(srs, sig, sr, freqs, Q, st, ic, pk, tm, es, rolloff="none", ppc=12):
     try:
-        sh, resp = srs.srs(sig, sr, freqs, Q, ic=ic, stype=st, peak=pk, ppc=12, rolloff=rolloff,
+        sh, resp = srs.srs(sig, sr, freqs, Q, ic=ic, stype=st, peak=pk, ppc=ppc, rolloff=rolloff,
                            eqsine=es, time=tm, getresp=True, parallel="no")
     except (ValueError, IndexError) as e:
         return ("raise", type(e).__name__)
@@ -265,9 +271,12 @@ def _cmp_hist(ctx, stream, inp, impl, replies, keys, extra_scale=0.0, tol=1e-9, 
     return nontriv
 
 
-def _case_dict(sig, sr, freqs, Q, st, ic, pk, tm, es, rolloff="none"):
-    return {"kind": "srs", "sig": np.asarray(sig).tolist(), "sr": sr, "freq": [float(f) for f in freqs], "Q": Q,
-            "stype": st, "ic": ic, "peak": pk, "time": tm, "eqsine": bool(es), "rolloff": rolloff}
+def _case_dict(sig, sr, freqs, Q, st, ic, pk, tm, es, rolloff="none", ppc=12):
+    d = {"kind": "srs", "sig": np.asarray(sig).tolist(), "sr": sr, "freq": [float(f) for f in freqs], "Q": Q,
+         "stype": st, "ic": ic, "peak": pk, "time": tm, "eqsine": bool(es), "rolloff": rolloff}
+    if ppc != 12:
+        d["ppc"] = ppc
+    return d
 
 
 def correspondence(ctx):
@@ -427,8 +436,10 @@ def correspondence(ctx):
 
             add([l for _, l in pairs], cb)
 
-    # ---- stream rolloff ---------------------------------------------------------------------
+    # ---- stream rolloff (the Lean model `srsRolled` decides whether and by which factor to resample; the
+    # real resampler's output is supplied and used by the model only if it decides to resample) ------------
     nroll = ctx.pick(9, 45)
+    rollfun = {"linear": srs.linroll, "lanczos": srs.lanroll, "fft": srs.fftroll, "prefilter": srs.preroll}
     for roll in ROLLS:
         for i in range(nroll):
             st = STYPES[int(rng.integers(0, 6))]
@@ -438,29 +449,27 @@ def correspondence(ctx):
             es = bool(rng.integers(0, 2))
             Q = float(rng.choice([5.0, 10.0, 25.0, 50.0]))
             sr = float(rng.choice([200.0, 1000.0, 2048.0]))
+            ppc = float(rng.choice([12.0, 12.0, 8.0, 20.0, 10.5]))
             trig = i % 3 != 2
-            mf = sr / (rng.uniform(2.5, 11.0) if trig else rng.uniform(12.5, 40.0))
+            mf = sr / (rng.uniform(0.21, 0.92) * ppc if trig else rng.uniform(1.05, 3.3) * ppc)
             freqs = sorted({mf, mf * 0.5, mf * float(rng.uniform(0.1, 0.9))})[: int(rng.integers(1, 4))]
             if mf not in freqs:
                 freqs.append(mf)
-            n = int(rng.choice([40, 64, 97, 128]))
+            n = int(rng.choice([40, 64, 97, 128, 13, 14] if roll == "prefilter" else [40, 64, 97, 128, 2, 3, 13]))
             H = int(rng.integers(1, 3))
             sig2d = _rand_sig(rng, n, H)
-            impl = _call_srs(srs, sig2d, sr, freqs, Q, st, ic, pk, tm, es, rolloff=roll)
-            # the real code's own pre-processing and resampler feed the model
-            sg, s1, doic, icvals = srs._process_ic(sig2d, ic, st)
-            sr2 = sr
-            if roll == "prefilter":
-                sg, sr2 = srs.preroll(sg, sr, 12, max(freqs))
-            elif sr / max(freqs) < 12:
-                sg, sr2 = {"linear": srs.linroll, "lanczos": srs.lanroll, "fft": srs.fftroll}[roll](sg, sr, 12, max(freqs))
-            sg = np.asarray(sg, float)
-            head = "tail %s %s %s %s %d %s %s %d %s" % (st, ic, pk, tm, 1 if es else 0, _bits(Q), _bits(sr2), len(freqs), _fl(freqs))
+            impl = _call_srs(srs, sig2d, sr, freqs, Q, st, ic, pk, tm, es, rolloff=roll, ppc=ppc)
+            sg = srs._process_ic(sig2d, ic, st)[0]
+            try:
+                ups = np.asarray(rollfun[roll](sg, sr, ppc, max(freqs))[0], float)
+            except Exception:  # a mutated resampler may raise: the model then sees the un-resampled record
+                ups = np.asarray(sg, float)
+            head = "rolled %s %s %s %s %d %s %s %s %s %d %s" % (st, ic, pk, tm, 1 if es else 0, roll, _bits(ppc), _bits(Q),
+                                                                _bits(sr), len(freqs), _fl(freqs))
             lines, keys = [], []
             for j, f in enumerate(freqs):
                 for c in range(H):
-                    lines.append("%s %s %s %d %s %s" % (head, _bits(f), _bits(s1[c]), 1 if doic else 0,
-                                                        _bits(icvals[c] if doic else 0.0), _fl(sg[:, c])))
+                    lines.append("%s %s %d %s %s" % (head, _bits(f), n, _fl(sig2d[:, c]), _fl(ups[:, c])))
                     keys.append((j, c))
             wmin = min(2 * math.pi * f for f in freqs)
             s1max = float(np.max(np.abs(sig2d[0])))
@@ -468,18 +477,63 @@ def correspondence(ctx):
 
             fl = _floors(st, sig2d, sr, freqs, Q, es)
 
-            def cb(reps, impl=impl, keys=keys, roll=roll, trig=trig, sr2=sr2, st=st, ic=ic, pk=pk, tm=tm, es=es, Q=Q, sr=sr,
-                   freqs=freqs, sig2d=sig2d, addb=addb, fl=fl):
-                inp = _case_dict(sig2d, sr, freqs, Q, st, ic, pk, tm, es, rolloff=roll)
-                if impl[0] == "ok" and impl[3] != sr2:
-                    ctx.disagree("rolloff", inp, {"sr": impl[3]}, {"sr": sr2})
+            def cb(reps, impl=impl, keys=keys, roll=roll, trig=trig, st=st, ic=ic, pk=pk, tm=tm, es=es, Q=Q, sr=sr,
+                   freqs=freqs, sig2d=sig2d, addb=addb, fl=fl, ppc=ppc):
+                inp = _case_dict(sig2d, sr, freqs, Q, st, ic, pk, tm, es, rolloff=roll, ppc=ppc)
                 nt = _cmp_hist(ctx, "rolloff", inp, impl, reps, keys, extra_scale=addb / (Q if es else 1.0), floors=fl)
-                ctx.case(("roll", roll, st, ic, pk, tm, es, Q, sr, tuple(freqs), sig2d.tobytes()), nontrivial=nt,
+                ctx.case(("roll", roll, st, ic, pk, tm, es, Q, sr, ppc, tuple(freqs), sig2d.tobytes()), nontrivial=nt,
                          branch="rolloff:%s:%s" % (roll, "resampled" if (trig or roll == "prefilter") else "not-needed"))
                 if trig or roll == "prefilter":
                     ctx.count("rolloff:%s:resampled:%s" % (roll, tm))
 
             add(lines, cb)
+
+    # ---- stream index (exact): M, N, S, resp['sr'], resp['t'] over (roll, time, N, sr, freq, ppc, ic) -------------
+    idx_cfgs = [  # (sr, freqs, ppc, tag)
+        (100.0, [20.0, 5.0], 12.0, "triggered"), (100.0, [25.0], 12.0, "triggered"), (120.0, [10.0, 2.5], 12.0, "boundary-eq"),
+        (120.0, [10.000000000000002], 12.0, "triggered"), (120.0, [9.999999999999998, 3.0], 12.0, "not-needed"),
+        (1000.0, [30.0, 7.0], 12.0, "not-needed"), (1000.0, [300.0, 40.0, 0.0], 12.5, "triggered"), (50.0, [0.0], 12.0, "no-positive-freq"),
+        (200.0, [0.0, 45.0], 4.0, "not-needed"), (200.0, [45.0, 11.0], 25.0, "triggered"), (48.0, [12.0, 1.0], 4.0, "boundary-eq"),
+        (48.0, [12.0, 0.7], 4.5, "triggered"), (4096.0, [1000.0, 3.3], 10.0, "triggered"),
+    ]
+    idx_ns = [1, 2, 3, 4, 5, 12, 13, 14, 31] + ([64, 65] if ctx.thorough else [])
+    for roll in ["none"] + ROLLS:
+        for ti, tm in enumerate(TIMES):
+            for n in idx_ns:
+                for ci, (sr, freqs, ppc, tag) in enumerate(idx_cfgs):
+                    if not ctx.thorough and (ci + n + ti) % 3 == 0 and n > 5:
+                        continue
+                    ic = ICS[(ci + n) % 4]
+                    sig = _rand_sig(rng, n, 1)[:, 0]
+                    impl = _call_srs(srs, sig, sr, freqs, 10.0, "absacce", ic, "abs", tm, False, rolloff=roll, ppc=ppc)
+                    line = "idx %s %s %s %s %d %s %d" % (roll, tm, _bits(ppc), _bits(sr), len(freqs), _fl(freqs), n)
+
+                    def cb(reps, impl=impl, roll=roll, tm=tm, n=n, sr=sr, freqs=freqs, ppc=ppc, tag=tag, ic=ic, sig=sig):
+                        inp = _case_dict(sig, sr, freqs, 10.0, "absacce", ic, "abs", tm, False, rolloff=roll, ppc=ppc)
+                        resamples = roll in ("linear", "fft", "lanczos")
+                        ctx.case(("idx", roll, tm, n, sr, tuple(freqs), ppc), nontrivial=True,
+                                 branch="index:%s:%s:%s" % (roll, tag if resamples else "no-resampler", tm))
+                        ctx.count("index:N=%s" % (n if n <= 2 else ">2"))
+                        rep = reps[0]
+                        if impl[0] == "raise":
+                            ctx.count("index:raises")
+                            if rep != "none" and rep.split()[-1] != "0":
+                                ctx.disagree("index", inp, "raises " + impl[1], rep)
+                            return
+                        if rep in ("none", "bad-op") or len(rep.split()) != 6:
+                            ctx.disagree("index", inp, {"hist_len": int(impl[2].shape[0])}, rep)
+                            return
+                        tk = rep.split()
+                        msr, mM, mN, mS, mfirst, mcount = _unbits(tk[0]), int(tk[1]), int(tk[2]), int(tk[3]), int(tk[4]), int(tk[5])
+                        hist, sr_out, tvec = impl[2], impl[3], impl[4]
+                        obs = {"sr": sr_out, "hist_len": int(hist.shape[0]), "t_len": int(tvec.shape[0]),
+                               "t0": float(tvec[0]) if tvec.size else None, "t_last": float(tvec[-1]) if tvec.size else None}
+                        want = {"sr": msr, "hist_len": mcount, "t_len": mcount, "t0": mfirst / msr if mcount else None,
+                                "t_last": (mfirst + mcount - 1) / msr if mcount else None}
+                        if obs != want or mN - mS != mcount or mfirst != mS:
+                            ctx.disagree("index", inp, obs, dict(want, M=mM, N=mN, S=mS))
+
+                    add([line], cb)
 
     # ---- stream errors -----------------------------------------------------------------------
     for st, ic, tm, sig, freqs, why in (
@@ -533,6 +587,118 @@ def correspondence(ctx):
 
             add([line], cb)
 
+    # ---- stream exact0 (rigid oscillator closed form, wn = 0) vs the code's 0 Hz histories -----------------
+    for st in STYPES:
+        for i in range(ctx.pick(6, 30)):
+            sr = float(np.exp(rng.uniform(np.log(10.0), np.log(1e4))))
+            n = int(rng.choice([1, 2, 5, 40, 150]))
+            sig = _rand_sig(rng, n, 1)[:, 0]
+            Q = float(rng.choice([0.6, 5.0, 10.0, 50.0]))
+            impl = _call_srs(srs, sig, sr, [0.0], Q, st, "zero", "abs", "primary", False)
+            line = "exact0 %s %s %s %s" % (st, _bits(Q), _bits(1 / sr), _fl(sig))
+
+            def cb(reps, impl=impl, st=st, Q=Q, sr=sr, sig=sig, n=n):
+                inp = _case_dict(sig, sr, [0.0], Q, st, "zero", "abs", "primary", False)
+                ctx.case(("exact0", st, Q, sr, sig.tobytes()), nontrivial=st in ("reldisp", "relvelo", "relacce"), branch="exact0:" + st)
+                if impl[0] != "ok":
+                    ctx.disagree("exact0", inp, impl, reps[0][:60])
+                    return
+                m = _parse(reps[0])
+                ih = impl[2][:, 0, 0]
+                amp = float(np.max(np.abs(sig)))
+                scale = max(amp * {"reldisp": (n / sr) ** 2, "relvelo": n / sr}.get(st, 1.0), 1e-300)
+                if m.shape != ih.shape or not np.all(np.isfinite(m)):
+                    ctx.disagree("exact0", inp, ih.tolist()[:6], m.tolist()[:6])
+                    return
+                _room(ctx, "exact0", np.max(np.abs(m - ih)) / (1e-9 * scale))
+                if np.max(np.abs(m - ih)) > 1e-9 * scale:
+                    ctx.disagree("exact0", inp, ih.tolist()[:6], m.tolist()[:6])
+
+            add([line], cb)
+
+    # ---- stream steady (closed form started in steady state under s1) vs ic='steady' histories ----------------
+    for st in STYPES:
+        for i in range(ctx.pick(10, 60)):
+            Q, sr, fn = _rand_params(rng, hi=300.0)
+            n = int(rng.choice([1, 3, 10, 40, 120]))
+            sig = _rand_sig(rng, n, 1)[:, 0] + float(rng.uniform(-5, 5))
+            impl = _call_srs(srs, sig, sr, [fn], Q, st, "steady", "abs", "primary", False)
+            wn = 2 * math.pi * fn
+            line = "steady %s %s %s %s %s %s" % (st, _bits(Q), _bits(1 / sr), _bits(wn), _bits(sig[0]), _fl(sig))
+
+            def cb(reps, impl=impl, st=st, Q=Q, sr=sr, fn=fn, sig=sig, wn=wn):
+                inp = _case_dict(sig, sr, [fn], Q, st, "steady", "abs", "primary", False)
+                ctx.case(("steady", st, Q, sr, fn, sig.tobytes()), nontrivial=True, branch="steady:" + st)
+                if impl[0] != "ok":
+                    ctx.disagree("steady", inp, impl, reps[0][:60])
+                    return
+                m = _parse(reps[0])
+                ih = impl[2][:, 0, 0]
+                G = {"reldisp": 1 / wn ** 2, "pvelo": 1 / wn, "relvelo": 1 / wn}.get(st, 1.0)
+                scale = max(float(np.max(np.abs(ih))), 2 * float(np.max(np.abs(sig))) * G, 1e-300)
+                if m.shape != ih.shape or not np.all(np.isfinite(m)):
+                    ctx.disagree("steady", inp, ih.tolist()[:6], m.tolist()[:6])
+                    return
+                _room(ctx, "steady", np.max(np.abs(m - ih)) / (1e-7 * scale))
+                if np.max(np.abs(m - ih)) > 1e-7 * scale:
+                    ctx.disagree("steady", inp, ih.tolist()[:6], m.tolist()[:6])
+
+            add([line], cb)
+
+    # ---- stream xcol (the filter-free specification exactCol: closed-form oscillator, ic rule, appended cycle,
+    # window, peak) vs srs.srs over the full option grid ------------------------------------------------------------
+    for rnd in range(ctx.pick(1, 3)):
+        for ci, (st, ic, pk, tm, es) in enumerate(combos):
+            Q, sr, fn = _rand_params(rng, hi=300.0)
+            freqs = [fn] if rng.random() < 0.5 else [fn, min(sr / 2.05, fn * float(rng.uniform(1.1, 3.0)))]
+            n = int(rng.choice([1, 2, 3, 7, 20, 60]))
+            sig = _rand_sig(rng, n, 1)[:, 0]
+            impl = _call_srs(srs, sig, sr, freqs, Q, st, ic, pk, tm, es)
+            head = "xcol %s %s %s %s %d %s %s %d %s" % (st, ic, pk, tm, 1 if es else 0, _bits(Q), _bits(sr), len(freqs), _fl(freqs))
+            lines = ["%s %s %s" % (head, _bits(f), _fl(sig)) for f in freqs]
+            keys = [(j, 0) for j in range(len(freqs))]
+            wmin = min(2 * math.pi * f for f in freqs)
+            addb = {"reldisp": abs(sig[0]) / wmin ** 2, "pvelo": abs(sig[0]) / wmin}.get(st, abs(sig[0])) if ic == "steady" else 0.0
+            fl = _floors(st, sig.reshape(-1, 1), sr, freqs, Q, es)
+
+            def cb(reps, impl=impl, keys=keys, st=st, ic=ic, pk=pk, tm=tm, es=es, Q=Q, sr=sr, freqs=freqs, sig=sig, addb=addb, fl=fl):
+                inp = _case_dict(sig, sr, freqs, Q, st, ic, pk, tm, es)
+                nt = _cmp_hist(ctx, "xcol", inp, impl, reps, keys, extra_scale=addb / (Q if es else 1.0), tol=1e-7, floors=fl)
+                ctx.case(("xcol", st, ic, pk, tm, es, Q, sr, tuple(freqs), sig.tobytes()), nontrivial=nt)
+                for br in ("xcol:stype:" + st, "xcol:ic:" + ic, "xcol:time:" + tm, "xcol:peak:" + pk):
+                    ctx.count(br)
+
+            add(lines, cb)
+
+    # ---- stream resid (closed-form free decay after the record) vs time='residual' histories ---------------------
+    for st in STYPES:
+        for i in range(ctx.pick(6, 30)):
+            Q, sr, fn = _rand_params(rng, hi=300.0)
+            freqs = [fn] if i % 2 else [fn, fn * 0.37]
+            n = int(rng.choice([1, 2, 9, 50]))
+            sig = _rand_sig(rng, n, 1)[:, 0]
+            impl = _call_srs(srs, sig, sr, freqs, Q, st, "zero", "abs", "residual", False)
+            line = "resid %s %s %s %d %s %s %s" % (st, _bits(Q), _bits(sr), len(freqs), _fl(freqs), _bits(fn), _fl(sig))
+
+            def cb(reps, impl=impl, st=st, Q=Q, sr=sr, fn=fn, freqs=freqs, sig=sig):
+                inp = _case_dict(sig, sr, freqs, Q, st, "zero", "abs", "residual", False)
+                ctx.case(("resid", st, Q, sr, fn, sig.tobytes()), nontrivial=True, branch="resid:" + st)
+                if impl[0] != "ok":
+                    ctx.disagree("resid", inp, impl, reps[0][:60])
+                    return
+                m = _parse(reps[0])
+                ih = impl[2][:, 0, 0]
+                scale = max(float(np.max(np.abs(ih))), _floors(st, sig.reshape(-1, 1), sr, [fn], Q, False)[(0, 0)], 1e-300)
+                if m.shape != ih.shape or not np.all(np.isfinite(m)):
+                    ctx.disagree("resid", inp, {"len": int(ih.shape[0])}, {"len": int(m.shape[0])})
+                    return
+                _room(ctx, "resid", np.max(np.abs(m - ih)) / (1e-7 * scale))
+                if np.max(np.abs(m - ih)) > 1e-7 * scale:
+                    k = int(np.argmax(np.abs(m - ih)))
+                    ctx.disagree("resid", inp, {"k": k, "hist": float(ih[k])}, {"k": k, "hist": float(m[k])})
+
+            add([line], cb)
+
     # ---- stream vrs (area weights + transmissibility; psd.interp's output is fed to both sides) ------
     import warnings
 
@@ -567,6 +733,37 @@ def correspondence(ctx):
         sel = list(range(len(fns))) if len(fns) <= 8 else sorted(set(int(v) for v in rng.integers(0, len(fns), 8)))
         body = " ".join("%s %s" % (_bits(f), _bits(v)) for f, v in zip(grid, pfull))
         lines = ["vrs %s %s %s" % (_bits(Qv), _bits(fns[k]), body) for k in sel]
+        # merged integration grid (exact) and Miles' value, from a getresp=True call
+        try:
+            with warnings.catch_warnings():
+                warnings.simplefilter("ignore")
+                _, zm, rr = srs.vrs((Fs, Pp), freq, Qv, linear=lin, Fn=Fn, getresp=True)
+            gimpl = np.asarray(rr["f"], float)
+            zm = np.asarray(zm, float)
+        except (IndexError, ValueError):
+            gimpl = zm = None
+        if gimpl is not None:
+            pidx = np.searchsorted(grid, fns)
+            msel = sel[:3]
+            glines = ["grid %d %s %s" % (len(freq), _fl(freq), _fl(Fn) if Fn is not None else "")] + \
+                     ["miles %s %s %s" % (_bits(Qv), _bits(fns[k]), _bits(pfull[pidx[k]])) for k in msel]
+
+            def cbg(reps, gimpl=gimpl, zm=zm, msel=msel, freq=freq, Fn=Fn, gk=gk, Qv=Qv, lin=lin, Pp=Pp):
+                inp = {"kind": "vrs", "spec_f": Fs.tolist(), "spec_p": Pp.tolist(), "linear": lin, "grid": gk if gk != "short" else "random",
+                       "Fn": None if Fn is None else Fn.tolist(), "freq": freq.tolist(), "Q": Qv}
+                ctx.case(("vrsgrid", freq.tobytes(), None if Fn is None else Fn.tobytes()), nontrivial=Fn is not None, branch="vrs:grid")
+                mg = _parse(reps[0])
+                if mg.shape != gimpl.shape or not np.array_equal(mg, gimpl):
+                    ctx.disagree("vrs-grid", inp, gimpl.tolist()[:8], mg.tolist()[:8])
+                    return
+                for k, rep in zip(msel, reps[1:]):
+                    ctx.count("vrs:miles")
+                    m = _unbits(rep)
+                    if not abs(m - zm[k]) <= 1e-12 * abs(zm[k]):
+                        ctx.disagree("vrs-miles", dict(inp, Fn_index=int(k)), float(zm[k]), m)
+                        return
+
+            add(glines, cbg)
 
         def cb(reps, impl=impl, sel=sel, fns=fns, gk=gk, Fn=Fn, freq=freq, Pp=Pp, Qv=Qv, lin=lin):
             inp = {"kind": "vrs", "spec_f": Fs.tolist(), "spec_p": Pp.tolist(), "linear": lin, "grid": gk if gk != "short" else "random",
@@ -602,7 +799,15 @@ def correspondence(ctx):
         + ["time:" + s for s in TIMES] + ["eqsine:True", "eqsine:False", "packaging:1-D", "samples:1", "samples:>1",
                                           "freq:0Hz", "error:empty-record", "error:empty-residual-window"]
         + ["rolloff:%s:resampled:%s" % (r, t) for r in ROLLS for t in TIMES] + ["exact:" + s for s in STYPES]
-        + ["vrs:uniform", "vrs:log", "vrs:random", "vrs:uniform+Fn", "vrs:log+Fn", "vrs:random+Fn", "vrs:raises"]
+        + ["vrs:uniform", "vrs:log", "vrs:random", "vrs:uniform+Fn", "vrs:log+Fn", "vrs:random+Fn", "vrs:raises",
+           "vrs:grid", "vrs:miles"]
+        + ["exact0:" + s for s in STYPES] + ["steady:" + s for s in STYPES] + ["resid:" + s for s in STYPES]
+        + ["xcol:stype:" + s for s in STYPES] + ["xcol:ic:" + s for s in ICS] + ["xcol:time:" + s for s in TIMES]
+        + ["xcol:peak:" + s for s in PEAKS]
+        + ["index:%s:%s:%s" % (r, g, t) for r in ("linear", "fft", "lanczos") for g in ("triggered", "boundary-eq", "not-needed")
+           for t in TIMES]
+        + ["index:%s:no-resampler:%s" % (r, t) for r in ("none", "prefilter") for t in TIMES]
+        + ["index:N=1", "index:N=2", "index:N=>2", "index:raises"]
     )
 
 
